@@ -166,7 +166,8 @@ def gen(rng):
     if tt is not None and not sc.get("sender") and rng.random() < 0.15:
         # the wall clock steps (forwards or backwards, by more than the timeout) somewhere around a ping
         k_ = rng.choice((2, 3, 4))
-        sc["clock_jump"] = {"at": k_ * it + rng.choice((-S // 8, 1, (pong.get("lat") or 0) // 2, S // 8, it // 2)),
+        sc["clock_jump"] = {"at": min(k_ * it + rng.choice((-S // 8, 1, (pong.get("lat") or 0) // 2, S // 8, it // 2)),
+                                      it * (sc["pings"] + 2) + tt * 3 - 1),
                             "delta": rng.choice((-1, 1)) * (tt + rng.choice((S // 4, tt, 10 * tt))) / S}
     sc["policy"] = rng.choice(({"kind": "coop", "p_call": 0.0}, {"kind": "coop", "p_call": 0.3},
                                {"kind": "prob", "p_line": 1 / 64, "p_call": 0.3}, {"kind": "prob", "p_line": 1 / 8, "p_call": 0.3},
